@@ -253,6 +253,13 @@ void ProcessCMD(
         DecodeLine(pCMDRecs, CMDRecCnt, EnvLine, ErrProc);
     }
 
+    /* Unprocessed[] only has room for argv[0]...argv[MAXPARAM]: */
+
+    if (argc > MAXPARAM + 1) {
+        ErrProc(False, argv[MAXPARAM + 1]);
+        argc = MAXPARAM + 1;
+    }
+
     for (z = 0; z < argc; z++) {
         Unprocessed[z] = (z != 0);
     }
@@ -272,7 +279,10 @@ void ProcessCMD(
                 Unprocessed[z] = False;
                 break;
             case CMDArg:
-                Unprocessed[z] = Unprocessed[z + 1] = False;
+                Unprocessed[z] = False;
+                if (z + 1 < argc) {
+                    Unprocessed[z + 1] = False;
+                }
                 break;
             case CMDFile:
                 AddStringListLast(&FileArgList, argv[z]);
